@@ -264,9 +264,17 @@ func (c *AuditClient) DeleteRule(rule []byte) error {
 		return fmt.Errorf("failed sending delete rule request: %w", err)
 	}
 
-	_, err = c.getReply(seq)
+	ack, err := c.getReply(seq)
 	if err != nil {
 		return fmt.Errorf("failed to get ACK to rule delete request: %w", err)
+	}
+
+	if ack.Header.Type != syscall.NLMSG_ERROR {
+		return fmt.Errorf("unexpected ACK to AUDIT_DEL_RULE, got type=%d", ack.Header.Type)
+	}
+
+	if err = ParseNetlinkError(ack.Data); err != nil {
+		return fmt.Errorf("error deleting audit rule: %w", err)
 	}
 
 	return nil
